@@ -25,6 +25,9 @@ enum Op {
     GOnlyRole { caller: usize },
     GHasRole { caller: usize },
     GOnlyAny { caller: usize },
+    /// two guards stacked on one entry point: role r0 AND (r1 or r2), the caller's authorization
+    GStackedA { caller: usize },
+    GStackedB { caller: usize },
     GHasAny { caller: usize },
 }
 
@@ -42,6 +45,8 @@ impl Op {
             Op::GOnlyRole { .. } => "g_only_role",
             Op::GHasRole { .. } => "g_has_role",
             Op::GOnlyAny { .. } => "g_only_any",
+            Op::GStackedA { .. } => "g_stacked_a",
+            Op::GStackedB { .. } => "g_stacked_b",
             Op::GHasAny { .. } => "g_has_any",
         }
     }
@@ -199,7 +204,9 @@ fn history_ac(cfg: &Cfg, rep: &mut Report, h: u64, steps: usize) {
             73..=77 => Op::GAdmin,
             78..=83 => Op::GOnlyRole { caller },
             84..=88 => Op::GHasRole { caller },
-            89..=94 => Op::GOnlyAny { caller },
+            89..=92 => Op::GOnlyAny { caller },
+            93 | 94 => Op::GStackedA { caller },
+            95 | 96 => Op::GStackedB { caller },
             _ => Op::GHasAny { caller },
         };
         // necessary principal (Appendix A)
@@ -207,7 +214,7 @@ fn history_ac(cfg: &Cfg, rep: &mut Report, h: u64, steps: usize) {
             Op::Grant { caller, .. } | Op::Revoke { caller, .. } | Op::RenounceRole { caller, .. } => Some(*caller),
             Op::SetRoleAdmin { .. } | Op::TransferAdmin { .. } | Op::RenounceAdmin | Op::GAdmin => m.admin.or(Some(usize::MAX)),
             Op::AcceptAdmin => m.pending.map(|p| p.0).or(Some(usize::MAX)),
-            Op::GOnlyRole { caller } | Op::GOnlyAny { caller } => Some(*caller),
+            Op::GOnlyRole { caller } | Op::GOnlyAny { caller } | Op::GStackedA { caller } | Op::GStackedB { caller } => Some(*caller),
             Op::GHasRole { .. } | Op::GHasAny { .. } => None, // documented: no authorization by the macro
         };
         let signers: Vec<usize> = if rng.chance(1, 2) {
@@ -228,6 +235,7 @@ fn history_ac(cfg: &Cfg, rep: &mut Report, h: u64, steps: usize) {
             Op::RenounceAdmin => m.admin.is_some() && !live,
             Op::GOnlyRole { caller } | Op::GHasRole { caller } => m.has(*caller, 0),
             Op::GOnlyAny { caller } | Op::GHasAny { caller } => m.has(*caller, 1) || m.has(*caller, 2),
+            Op::GStackedA { caller } | Op::GStackedB { caller } => m.has(*caller, 0) && (m.has(*caller, 1) || m.has(*caller, 2)),
         };
         let want_ok = pre_ok && authorized;
         let (f, av): (&str, SVec<Val>) = match &op {
@@ -242,6 +250,8 @@ fn history_ac(cfg: &Cfg, rep: &mut Report, h: u64, steps: usize) {
             Op::GOnlyRole { caller } => ("g_only_role", args!(e, u[*caller])),
             Op::GHasRole { caller } => ("g_has_role", args!(e, u[*caller])),
             Op::GOnlyAny { caller } => ("g_only_any", args!(e, u[*caller])),
+            Op::GStackedA { caller } => ("g_stacked_a", args!(e, u[*caller])),
+            Op::GStackedB { caller } => ("g_stacked_b", args!(e, u[*caller])),
             Op::GHasAny { caller } => ("g_has_any", args!(e, u[*caller])),
         };
         let inv = Inv::new(&c, f, av.clone());
@@ -259,6 +269,7 @@ fn history_ac(cfg: &Cfg, rep: &mut Report, h: u64, steps: usize) {
         let kind = match &op {
             Op::Grant { role, caller, .. } | Op::Revoke { role, caller, .. } | Op::RenounceRole { role, caller } => m.caller_kind(*caller, *role),
             Op::GOnlyRole { caller } | Op::GHasRole { caller } => m.caller_kind(*caller, 0),
+            Op::GStackedA { caller } | Op::GStackedB { caller } => if m.has(*caller, 0) { if m.has(*caller, 1) || m.has(*caller, 2) { "both-guards-met" } else { "first-guard-only" } } else if m.has(*caller, 1) || m.has(*caller, 2) { "second-guard-only" } else { "none" },
             Op::GOnlyAny { caller } | Op::GHasAny { caller } => {
                 if m.has(*caller, 1) && m.has(*caller, 2) {
                     "both"
@@ -294,7 +305,7 @@ fn history_ac(cfg: &Cfg, rep: &mut Report, h: u64, steps: usize) {
         });
         // guarded entry points: executed exactly when they returned ok
         let ctr1: u32 = invoke(e, &c, "counter", args!(e)).unwrap();
-        let is_g = matches!(op, Op::GAdmin | Op::GOnlyRole { .. } | Op::GHasRole { .. } | Op::GOnlyAny { .. } | Op::GHasAny { .. });
+        let is_g = matches!(op, Op::GAdmin | Op::GOnlyRole { .. } | Op::GHasRole { .. } | Op::GOnlyAny { .. } | Op::GHasAny { .. } | Op::GStackedA { .. } | Op::GStackedB { .. });
         let want_ctr = ctr0 + if is_g && got.is_ok() { 1 } else { 0 };
         rep.check("res", ctr1 == want_ctr, &format!("C06/res/{site}/guarded-body-ran"), || format!("{op:?} -> {got:?}: counter {ctr0} -> {ctr1}"));
         if got.is_ok() {
